@@ -28,7 +28,7 @@ RULE = ("create_cooler(ordered=False): regression corpus (D9: 2 or 3 chunks with
         "chromosomes), both storage modes, columns count / count+x, mergebuf 1..N+1, max_merge 1..k+1, unsorted chunks with ensure_sorted, empty chunks; all chunk orders of "
         "3-chunk inputs; `cooler load -f coo` and `cooler cload pairs` with --chunksize 1..4, --max-merge, --mergebuf, --temp-dir; edges of the first merge pass observed "
         "with delete_temp=False; np.linspace edge lists for n <= 5000 checked admissible; merge_breakpoints at function level on every family of 1..2 monotone index "
-        "arrays of length 2..3 (increments 0..2) x bufsize 1..nnz+1 plus random larger ones; the known finding D22 in a fresh interpreter; parameter/representation audit (one case each): chunks as dict of arrays / list / int32 ids / int32 and float64 values / with an unrequested column, columns=None, dtypes None / partial / float default, ids listed in columns, default mergebuf, max_merge 0 and -1, temp_dir None (location observed with delete_temp=False) and \"-\", check flags off, output URI with group, mode=a / --append next to an existing cooler, `cooler load` --one-based / duplex / --count-as-float / --field / bg2 / chromsizes:binsize bins, `cload pairs` --zero-based / BED bins / permuted field numbers / duplex / --field score; a HISTORY pass in one process (12 ingests): the same output path, temp dir, bin-table objects, chunk list, columns / dtypes objects, sanitizer / aggregator objects and agg dict across consecutive ingests whose records, bin table (incl. same chromsizes and nbins), columns and storage mode change, chunks as generator / list / tuple / iterator, caller objects asserted unchanged; the bin table of every output is part of the observable. non-trivial = a pixel occurs in >= 2 chunks, or >= 2 merge epochs, or two passes; distinct by input hash")
+        "arrays of length 2..3 (increments 0..2) x bufsize 1..nnz+1 plus random larger ones; the known finding D22 in a fresh interpreter; parameter/representation audit (one case each): chunks as dict of arrays / list / int32 ids / int32 and float64 values / with an unrequested column, columns=None, dtypes None / partial / float default, ids listed in columns, default mergebuf, max_merge 0 and -1, temp_dir None (location observed with delete_temp=False) and \"-\"every DataFrame chunk of every API case gets a row-label representation by rotation (default RangeIndex, permutation of 0..n-1, labels running across chunks, strided RangeIndex, duplicate labels, string labels), plus dedicated cases per kind x ensure_sorted on (rows shuffled) / off x unordered (mergebuf 1, one and two passes) / ordered / one single DataFrame; , check flags off, output URI with group, mode=a / --append next to an existing cooler, `cooler load` --one-based / duplex / --count-as-float / --field / bg2 / chromsizes:binsize bins, `cload pairs` --zero-based / BED bins / permuted field numbers / duplex / --field score; a HISTORY pass in one process (12 ingests): the same output path, temp dir, bin-table objects, chunk list, columns / dtypes objects, sanitizer / aggregator objects and agg dict across consecutive ingests whose records, bin table (incl. same chromsizes and nbins), columns and storage mode change, chunks as generator / list / tuple / iterator, caller objects asserted unchanged; the bin table of every output is part of the observable. non-trivial = a pixel occurs in >= 2 chunks, or >= 2 merge epochs, or two passes; distinct by input hash")
 TRUSTED = ["pandas concat/groupby/sort_values, np.linspace, tempfile.NamedTemporaryFile and h5py are observed through create_cooler, modelled by Model/Merge.v",
            "for the CLI runs the harness itself turns text lines into per-chunk records (bin assignment, upper-triangle reflection, per-chunk aggregation for cload): "
            "that is the ingest pipeline of C05, not part of this property"]
@@ -72,7 +72,7 @@ def impl_fresh_process(root, case):
 
 
 # --------------------------------------------------------------------- implementation
-def chunk_frame(ch, cols, case=None):
+def chunk_frame(ch, cols, case=None, chunk_no=0, offset=0):
     """one chunk as the caller hands it over: DataFrame (default) or dict of arrays; id / value dtypes and an
     unrequested extra column are representation choices of the case"""
     case = case or {}
@@ -85,7 +85,39 @@ def chunk_frame(ch, cols, case=None):
         d[nm] = np.array([p[2][k] for p in ch], dtype=np.float64 if str(tok).startswith("f") else vdt)
     if case.get("extra_col"):
         d["junk"] = np.arange(len(ch), dtype=np.float64)
-    return d if case.get("repr") == "dict" else pd.DataFrame(d)
+    if case.get("repr") == "dict":
+        return d
+    df = pd.DataFrame(d)
+    return with_index(df, index_kind(case, chunk_no), chunk_no, offset)
+
+
+INDEX_KINDS = ["range", "perm", "running", "strided", "dup", "str"]
+
+
+def index_kind(case, chunk_no):
+    """the row-label representation of a DataFrame chunk: given by the case, else chosen by rotation over the case's
+    content (deterministic, so a replay builds the same frames)"""
+    if case.get("index_repr"):
+        return case["index_repr"]
+    import zlib
+    key = canon({k: v for k, v in case.items() if k != "index_repr"})
+    return INDEX_KINDS[(zlib.crc32(key.encode()) + chunk_no) % len(INDEX_KINDS)]
+
+
+def with_index(df, kind, chunk_no=0, offset=0):
+    """same rows in the same order, other row labels: the result of an ingestion must not depend on them"""
+    n = len(df)
+    if kind == "perm":            # labels are a permutation of 0..n-1 (a shuffled frame that was not reset_index'ed)
+        df.index = pd.Index([(7 * i + 3 + chunk_no) % n for i in range(n)] if n and np.gcd(7, n) == 1 else list(range(n))[::-1])
+    elif kind == "running":       # labels continue across chunks (read_csv(chunksize=...), iloc slices of one long table)
+        df.index = pd.RangeIndex(offset, offset + n)
+    elif kind == "strided":
+        df.index = pd.RangeIndex(5, 5 + 3 * n, 3)
+    elif kind == "dup":           # duplicate labels
+        df.index = pd.Index([i // 2 for i in range(n)])
+    elif kind == "str":
+        df.index = pd.Index([f"r{n - i}" for i in range(n)])
+    return df
 
 
 def impl_api(root, case, limit=20.0):
@@ -103,8 +135,13 @@ def impl_api(root, case, limit=20.0):
             kw[k] = bool(case[k])
     keep = bool(case.get("keep_temp"))
     # ---- parameter values of the case (defaults = what every earlier case used)
-    chunks = [chunk_frame(ch, cols, case) for ch in case["chunks"]]
-    pixels = chunks if case.get("repr") == "list" else iter(chunks)
+    chunks, off_ = [], 0
+    for no_, ch in enumerate(case["chunks"]):
+        chunks.append(chunk_frame(ch, cols, case, no_, off_))
+        off_ += len(ch)
+    if case.get("single_frame"):        # ONE DataFrame instead of an iterable of chunks (create_cooler sorts it itself)
+        chunks = chunks[0]
+    pixels = chunks if (case.get("repr") == "list" or case.get("single_frame")) else iter(chunks)
     if not case.get("columns_none"):
         kw["columns"] = [c for c, _ in cols] + (["bin1_id"] if case.get("columns_with_ids") else [])
     da = case.get("dtypes_arg", "full")
@@ -143,7 +180,7 @@ def impl_api(root, case, limit=20.0):
             warnings.simplefilter("ignore")
             with G.time_limit(limit):
                 cooler.create_cooler(uri, G.bins_df(case["ax"]), pixels,
-                                     ordered=False, symmetric_upper=bool(case["symm"]),
+                                     ordered=bool(case.get("ordered")), symmetric_upper=bool(case["symm"]),
                                      max_merge=case["max_merge"], delete_temp=not keep, **kw)
                 raw = G.read_raw(uri, [c for c, _ in cols])
         obs = G.obs_of_raw(raw)
@@ -572,7 +609,8 @@ def cli_cases(rng, n_each):
 
 
 def modelled(case):
-    return all(G.is_signed_int(b) for _, b in effective(case)[1])
+    # the model is create_from_unordered over signed integer columns; ordered creation is judged by the oracle only
+    return all(G.is_signed_int(b) for _, b in effective(case)[1]) and not case.get("ordered") and not case.get("single_frame")
 
 
 def audit_cases(rng):
@@ -718,6 +756,45 @@ def dtype_grid_cases(rng, thorough):
     for chunksize, mm in ((1, 1), (1, 2), (2, 2), (4, 1), (3, 200)):
         cs.append(("dtype-grid:cli", {"fn": "load", "ax": "B5", "symm": True, "lines": coo, "chunksize": chunksize,
                                       "mergebuf": 1, "max_merge": mm, "count_as_float": True}))
+    return cs
+
+
+# --------------------------------------------------------------------- input representation: row labels of DataFrame chunks
+def index_cases(rng):
+    """every row-label representation of a DataFrame chunk, for unordered and ordered creation, with ensure_sorted on
+    (rows of each chunk shuffled) and off (rows sorted), small mergebuf so that the merge has several epochs"""
+    cs = []
+    n = G.nbins("A6")
+    keys = G.all_keys(n, True)
+    for kind in INDEX_KINDS:
+        for es in (True, False):
+            # unordered: 3 chunks that repeat pixels across chunks
+            chunks = []
+            for _ in range(3):
+                ks = rng.sample(keys, 6)
+                ch = [[k[0], k[1], [rng.randint(1, 9)]] for k in ks]
+                if es:
+                    while [tuple(p[:2]) for p in ch] == sorted(tuple(p[:2]) for p in ch):
+                        rng.shuffle(ch)
+                else:
+                    ch.sort(key=lambda p: (p[0], p[1]))
+                chunks.append(ch)
+            for mm in (1, 200):
+                cs.append(("index:" + kind, api_case("A6", True, COLS1, chunks, 1, mm, ensure_sorted=es, index_repr=kind)))
+            # ordered: the sorted table cut into 3 row-range chunks, rows shuffled inside a chunk when ensure_sorted
+            ks = sorted(rng.sample(keys, 12))
+            parts = [ks[0:4], ks[4:8], ks[8:12]]
+            ochunks = []
+            for part in parts:
+                ch = [[k[0], k[1], [rng.randint(1, 9)]] for k in part]
+                if es:
+                    ch = ch[::-1]
+                ochunks.append(ch)
+            cs.append(("index:" + kind, api_case("A6", True, COLS1, ochunks, 1, 200, ensure_sorted=es, index_repr=kind, ordered=True)))
+        # one shuffled DataFrame (not an iterable): create_cooler sorts it itself
+        ks = rng.sample(keys, 9)
+        cs.append(("index:" + kind, api_case("A6", True, COLS1, [[[k[0], k[1], [rng.randint(1, 9)]] for k in ks]], 1, 200,
+                                             index_repr=kind, single_frame=True, ensure_sorted=True)))
     return cs
 
 
@@ -886,6 +963,7 @@ def run(ctx):
     cases += cli_cases(rng, 30 if thorough else 8)
     cases += audit_cases(rng)
     cases += dtype_grid_cases(rng, thorough)
+    cases += index_cases(rng)
 
     # known finding (temp files of the FIRST creation of a process survive it): exercised in a fresh
     # interpreter; this process is warmed up with one ordered creation so that every other case is
